@@ -24,6 +24,19 @@ def restore_stage(V):
             rows.extend(r)
     n, bad = 0, 0
     for r in rows:
+        if r["kind"] == "restore_partial" and r["rc"] == [0] and r["rc_update"] == [0]:
+            n += 1
+            child = {c[0]: c[1] for c in r["restored"]["child"]}
+            for d in r["chain"]:
+                if child.get(d["key"][0], 0) <= d["key"][1]:
+                    bad += 1
+                    V.violation({"property": "C15", "kind": "oracle",
+                                 "what": "a wallet restored from seed, scanned from block %s only (tip %s) and then updated: the next "
+                                         "child index %s of account %d is not beyond path %s found on chain (block %s)"
+                                         % (r["start"], r["tip"], child.get(d["key"][0], 0), d["key"][0], d["key"], d["height"]),
+                                 "row": {k: v for k, v in r.items() if k != "restored"}})
+                    break
+            continue
         if r["kind"] != "restore" or r["rc"] != [0]:
             continue
         n += 1
